@@ -153,4 +153,64 @@ theorem plySim_of_fields {a b : State} (h1 : a.size = b.size) (h2 : a.blackWinsT
   subst h1; subst h2; subst h3; subst h4; subst h5; subst h6; subst h7
   rfl
 
+/-! ### reserves count the placements -/
+
+/-- pieces still in reserve -/
+def resSum (s : State) : Nat := s.whiteStones + s.whiteCaps + s.blackStones + s.blackCaps
+
+theorem resSum_decReserve (s : State) (c : Color) (cap : Bool) (hc : c ≠ Color.none) (hpos : s.reserve c cap ≠ 0) :
+    resSum (s.decReserve c cap) + 1 = resSum s := by
+  cases c <;> cases cap <;> simp_all [State.decReserve, State.reserve, resSum] <;> omega
+
+/-- a legal move takes exactly one piece from the reserves (a placement), or none — and then the
+opening is over (a slide) -/
+theorem step_resSum (s : State) (m : Spec.Move) (s' : State) (h : step s m = some s') :
+    resSum s' + 1 = resSum s ∨ (2 ≤ s.ply ∧ resSum s' = resSum s) := by
+  cases m with
+  | invalid => simp [step] at h
+  | place x y k =>
+    left
+    simp only [step] at h
+    have hcol : (if s.ply < 2 then s.toMove.flip else s.toMove) ≠ Color.none := by
+      split
+      · exact (SpecProofs.toMove_ne_none s).2
+      · exact (SpecProofs.toMove_ne_none s).1
+    generalize (if s.ply < 2 then s.toMove.flip else s.toMove) = col at h hcol
+    split at h
+    · cases h
+    split at h
+    · cases h
+    split at h
+    · cases h
+    split at h
+    · cases h
+    · rename_i hres
+      cases h
+      have := resSum_decReserve s col (k == Kind.capstone) hcol (by simpa using hres)
+      exact this
+  | slide x y d drops =>
+    right
+    simp only [step] at h
+    split at h
+    · cases h
+    rename_i hply
+    split at h
+    · cases h
+    split at h
+    · cases h
+    split at h
+    · cases h
+    split at h
+    · cases h
+    · split at h
+      · cases h
+      · split at h
+        · cases h
+        · rename_i s1 hdl
+          cases h
+          obtain ⟨_, _, _, h4, h5, h6, h7, _⟩ := SpecProofs.dropLoop_frame _ _ _ _ _ _ _ hdl
+          refine ⟨by omega, ?_⟩
+          simp only [resSum, h4, h5, h6, h7]
+          rfl
+
 end C06
